@@ -183,6 +183,17 @@ def run_shard(shard):
         for s in gen_xonsh.UNTERMINATED:
             for v in (s, s + "\n", "x = 1\n" + s, s + "\nx = 1\n", "\n\n" + s + "\n   "):
                 both(v, "unterminated")
+        # an error after a macro: the diagnostic pass re-reads the macro from the token cache and must report the error where it is
+        for mac, plain in (("f!(x, y)", "f_(x, y)"), ("g!(a b)", "g_('a b')"), ("with! c:\n    raw text\n", "with c:\n    'raw text'\n"), ("r = $(echo! raw)", "r = s_('echo', 'raw')")):
+            for bad in ("z = 1 1\n", "print 'a'\n", "x = (\n", "def (:\n", "y = = 2\n"):
+                sep = "" if mac.endswith("\n") else "\n"
+                a, b = base.parse(mac + sep + bad, "exec"), base.parse(plain + sep + bad, "exec")
+                acc.count("error_after_macro_pairs")
+                if a.kind == "syntax" and b.kind == "syntax":
+                    pa, pb = (a.exc.msg, a.exc.lineno, a.exc.offset), (b.exc.msg, b.exc.lineno, b.exc.offset)
+                    if pa != pb:
+                        acc.violation("error-after-macro-misreported", {"src": mac + sep + bad, "mode": "exec"}, {"with_macro": list(map(str, pa)), "with_plain_call": list(map(str, pb))})
+                both(mac + sep + bad, "error-after-macro")
         for s in VERSION_GATED:
             for v in ((3, 8), (3, 10), (3, 11)):
                 out = base.parse(s, "exec", py_version=v)
